@@ -22,10 +22,12 @@ type NativeResult struct {
 // Native builds the replay test binary from the repository's current working
 // tree plus the harness (overlay) and runs cases through it.
 type Native struct {
-	dir   string // scratch directory (removed by Close)
-	bin   string
-	built bool
-	BuildS float64
+	dir       string // scratch directory (removed by Close)
+	bin       string
+	built     bool
+	raceBin   string
+	raceBuilt bool
+	BuildS    float64
 }
 
 func NewNative() (*Native, error) {
@@ -39,6 +41,9 @@ func NewNative() (*Native, error) {
 func (n *Native) Close() { os.RemoveAll(n.dir) }
 
 func (n *Native) Build(race bool) error {
+	if race {
+		return n.buildRace()
+	}
 	if n.built {
 		return nil
 	}
@@ -67,6 +72,74 @@ func (n *Native) Build(race bool) error {
 	n.built = true
 	n.BuildS = time.Since(t0).Seconds()
 	return nil
+}
+
+func (n *Native) buildRace() error {
+	if n.raceBuilt {
+		return nil
+	}
+	ovPath := filepath.Join(n.dir, "overlay.json")
+	if _, err := os.Stat(ovPath); err != nil {
+		ov, err := harnessOverlay(true)
+		if err != nil {
+			return err
+		}
+		js, _ := json.Marshal(map[string]interface{}{"Replace": ov})
+		if err := os.WriteFile(ovPath, js, 0o644); err != nil {
+			return err
+		}
+	}
+	n.raceBin = filepath.Join(n.dir, "replay-race.test")
+	cmd := exec.Command("go", "test", "-c", "-race", "-tags", "verif", "-vet=off", "-overlay", ovPath, "-o", n.raceBin, ".")
+	cmd.Dir = repoDir
+	cmd.Env = append(goEnv(), "GOCACHE="+goCache(), "CGO_ENABLED=1")
+	out, err := cmd.CombinedOutput()
+	if err != nil {
+		return fmt.Errorf("building the race-detector replay binary failed: %v\n%s", err, out)
+	}
+	n.raceBuilt = true
+	return nil
+}
+
+// RunRace runs one case in the race-detector build; reports whether the
+// detector found a data race.
+func (n *Native) RunRace(c ReplayCase) (bool, string, error) {
+	if err := n.buildRace(); err != nil {
+		return false, "", err
+	}
+	inPath := filepath.Join(n.dir, "race-case.jsonl")
+	outPath := filepath.Join(n.dir, "race-result.jsonl")
+	js, _ := json.Marshal(struct {
+		ID    int               `json:"id"`
+		Fn    string            `json:"fn"`
+		Args  []int             `json:"args"`
+		Model map[string]uint64 `json:"model"`
+	}{0, c.Fn, c.Args, c.Model})
+	if err := os.WriteFile(inPath, append(js, '\n'), 0o644); err != nil {
+		return false, "", err
+	}
+	ctx, cancel := context.WithTimeout(context.Background(), 120*time.Second)
+	defer cancel()
+	cmd := exec.CommandContext(ctx, n.raceBin, "-test.run", "^TestZZReplay$", "-test.timeout", "0")
+	cmd.Dir = repoDir
+	cmd.Env = append(os.Environ(), "VERIF_CASES="+inPath, "VERIF_RESULTS="+outPath, "GORACE=halt_on_error=0")
+	out, _ := cmd.CombinedOutput()
+	os.Remove(inPath)
+	os.Remove(outPath)
+	txt := string(out)
+	if strings.Contains(txt, "WARNING: DATA RACE") {
+		i := strings.Index(txt, "WARNING: DATA RACE")
+		return true, lastLinesFrom(txt[i:], 14), nil
+	}
+	return false, lastLines(txt, 3), nil
+}
+
+func lastLinesFrom(s string, n int) string {
+	ls := strings.Split(strings.TrimSpace(s), "\n")
+	if len(ls) > n {
+		ls = ls[:n]
+	}
+	return strings.Join(ls, " / ")
 }
 
 func goCache() string {
